@@ -69,6 +69,24 @@ def fam_lengths(rng, rounds):
             return f"fn f(a: Box<GenericArray<u32, U{n}>>, b: Box<GenericArray<u32, U{m}>>) -> Box<GenericArray<u32, U{n}>> {{ a.zip(b, |x, y| x + y) }}"
         P += twins("length", "zip_box_box", {"n": n}, zb(n), [("rhs_plus_1", zb(n + 1))])
         # stack zip with boxed rhs is rejected whatever the lengths (documented)
+        # the doc-hidden right-hand-side entry points of zip carry the same length equality
+        def iz(m):
+            return f"fn f(a: GenericArray<u32, U{n}>, b: GenericArray<u32, U{m}>) -> GenericArray<u32, U{n}> {{ b.inverted_zip(a, |x, y| x + y) }}"
+        P += twins("length", "inverted_zip_own", {"n": n}, iz(n), [("rhs_plus_1", iz(n + 1)), ("rhs_minus_1", iz(n - 1))])
+        def izr(m):
+            return f"fn f(a: GenericArray<u32, U{n}>, b: &GenericArray<u32, U{m}>) -> GenericArray<u32, U{n}> {{ b.inverted_zip(a, |x, y| x + *y) }}"
+        P += twins("length", "inverted_zip_ref", {"n": n}, izr(n), [("rhs_plus_1", izr(n + 1))])
+        for lf, lt in (("ref", "&GenericArray<u32, U{x}>"), ("mut", "&mut GenericArray<u32, U{x}>"), ("own", "GenericArray<u32, U{x}>")):
+            for rf, rt in (("own", "GenericArray<u32, U{x}>"), ("ref", "&GenericArray<u32, U{x}>"), ("box", "Box<GenericArray<u32, U{x}>>")):
+                if (lf == "own") != (rf == "box") and lf == "own":
+                    continue
+                if rf == "box" and lf != "own":
+                    continue
+                def iz2(m):
+                    l = lt.format(x=n) if rf != "box" else f"Box<GenericArray<u32, U{n}>>"
+                    out = f"GenericArray<u32, U{n}>" if rf != "box" else f"Box<GenericArray<u32, U{n}>>"
+                    return f"fn f(a: {l}, b: {rt.format(x=m)}) -> {out} {{ b.inverted_zip2(a, |x, y| {{ let _ = (&x, &y); 0u32 }}) }}"
+                P += twins("length", f"inverted_zip2_{lf}_{rf}", {"n": n}, iz2(n), [("rhs_plus_1", iz2(n + 1))])
         for op in ("==", "<"):
             def c(m):
                 return f"fn f(a: &GenericArray<u32, U{n}>, b: &GenericArray<u32, U{m}>) -> bool {{ a {op} b }}"
@@ -372,7 +390,7 @@ def run(root, pid, tier, seed):
     return E.evidence(
         pid, tier, seed, "exploration", len(progs), len(rejects),
         "programs generated in accept/reject twins that differ in exactly one length, type name or lifetime, compiled (rustc --emit=metadata) against the rlib built from the working tree. "
-        "Families: (1) length relations - zip in all ten receiver forms, ==, <, cmp, partial_cmp, split (owned/&/&mut; wrong second length; pivot past the end), pop_back/pop_front/remove/swap_remove (result length; from an empty array), append/prepend, concat, flatten/unflatten (owned/&/&mut), into_array/from_array/From/Into/AsRef/AsMut/From<&[T;N]>/From<&mut [T;N]>, from_chunks/into_chunks (+_mut), tuples of every arity incl. 13, arr! length inference (list and both repeat forms), user impl of ArrayLength (sealed), stack x boxed zip; "
+        "Families: (1) length relations - zip in all ten receiver forms (and its doc-hidden entry points inverted_zip / inverted_zip2), ==, <, cmp, partial_cmp, split (owned/&/&mut; wrong second length; pivot past the end), pop_back/pop_front/remove/swap_remove (result length; from an empty array), append/prepend, concat, flatten/unflatten (owned/&/&mut), into_array/from_array/From/Into/AsRef/AsMut/From<&[T;N]>/From<&mut [T;N]>, from_chunks/into_chunks (+_mut), tuples of every arity incl. 13, arr! length inference (list and both repeat forms), user impl of ArrayLength (sealed), stack x boxed zip; "
         "(2) auto traits - Send, Sync, Copy, Clone for GenericArray, GenericArrayIter and Box<GenericArray> over ten element types (u8, String, Rc, Cell, RefCell, *const u8, MutexGuard, Arc<Cell>, &Cell, AtomicU8), expected verdict = whether the element type has the trait (iterator and Box never Copy); "
         "(3) lifetimes - for 41 reference-returning APIs: widening ('a in, 'static out), escape (view of a local outlives it), and for mutable views two live mutable views / shared use while a mutable view is live, for shared views mutation of the source while the view is live; arr! of references; collect/map of references. "
         "Oracle: a predicate over the generated parameters says accept or reject; any type-, trait- or borrow-check error counts as a rejection; unresolved names / syntax errors are template faults (exit 2). "
